@@ -5,7 +5,7 @@
 From Coq Require Import List String Bool Permutation.
 Import ListNotations.
 From DI Require Import Syntax Tokens Bounds Param Subs Superset Substitute Spec RustSem Group Validate IMap Hygiene Dispatch Examples ExamplesGroup.
-From DI.proofs Require Import Basics SupersetSound SupersetExact SubstituteProofs BoundsProofs DispatchProofs GroupProofs ParamProofs ParamAlpha RustSemProofs ValidateProofs IMapProofs HygieneProofs.
+From DI.proofs Require Import Basics SupersetSound SupersetExact SupersetComplete SubstituteProofs BoundsProofs DispatchProofs GroupProofs ParamProofs ParamAlpha RustSemProofs ValidateProofs IMapProofs HygieneProofs.
 
 (* ===================================================================================== *)
 (* C09 -- header generalisation is exact first-order matching                             *)
@@ -61,6 +61,24 @@ Example C09_nonvacuous :
   /\ apply ex_subs ex_pat = ex_inst.
 Proof. vm_compute. repeat split. Qed.
 Print Assumptions C09_nonvacuous.
+
+(* completeness (the converse direction): if the second term IS the first with its parameters
+   substituted by theta (values are not wrappers, not the parameter itself, of the parameter's
+   sort; no parameter under a qualified self type is moved; the conditions are the decidable
+   predicate [cwf]), the matcher finds a substitution, every entry of it is theta's value for
+   that parameter (Identity where theta leaves it alone), and it binds only parameters of
+   the pattern. *)
+Theorem C09_complete : forall theta a, cwf theta a = true ->
+  exists s, sup a (apply theta a) = Some s
+            /\ (forall p v, In (p, v) s -> v = value_of theta p)
+            /\ (forall p v, In (p, v) s -> In p (params a)).
+Proof. exact sup_complete. Qed.
+Print Assumptions C09_complete.
+
+Example C09_complete_nonvacuous :
+  cwf ex_subs ex_pat = true /\ apply ex_subs ex_pat = ex_inst /\ ex_subs <> [].
+Proof. vm_compute. repeat split. discriminate. Qed.
+Print Assumptions C09_complete_nonvacuous.
 
 (* ===================================================================================== *)
 (* C10 -- bound re-expression over a more general header is exact                         *)
